@@ -27,3 +27,15 @@ package p2p
 //@   ensures[C17] @macs err == nil ==> macchecks == old(macchecks) + 2 && macfails == old(macfails)
 //@   ensures[C17] @decafter err == nil ==> dec_after == old(macchecks) + 2
 //@   nopanic[C17]
+
+// ---- handshake input (C17) -----------------------------------------------------------------------
+// A key imported from peer bytes is usable whenever no error is reported, and the auth-ack handler
+// reports success only with the remote ephemeral key in place (the secrets derivation that follows
+// dereferences it).
+//@ func importPublicKey
+//@   ensures[C17] @usable result1 == nil ==> result0 != nil
+//@   nopanic[C17]
+//@ func encHandshake.handleAuthResp
+//@   requires h != nil && msg != nil
+//@   ensures[C17] @key err == nil ==> h.remoteRandomPub != nil
+//@   nopanic[C17]
